@@ -291,7 +291,7 @@ fn std_leaf(ty: Ty, k: usize) -> Expr {
 
 pub fn triples() -> Vec<Case> {
     let mut out = vec![];
-    for target in ["sqlite", "generic", "postgres"] {
+    for target in ["sqlite", "generic", "postgres", "duckdb", "mssql", "clickhouse"] {
         for &p in ALL_BINOPS {
             for &c in ALL_BINOPS {
                 for side in 0..2 {
@@ -608,7 +608,7 @@ pub fn check(case: &Case, known: &Known, db: &Db) -> Outcome {
         }
         None
     };
-    let res = match exec::run(db, &sql) {
+    let res = match exec::run_cached(0xC02, db, &sql) {
         Ok(r) => r,
         Err(e) => {
             let m = e.msg().to_string();
@@ -671,7 +671,7 @@ pub fn check(case: &Case, known: &Known, db: &Db) -> Outcome {
         if all_bool {
             let fsrc = format!("from v | filter {text} | select {{id}}");
             if let Compiled::Sql(fsql) = util::compile(&fsrc, dialect) {
-                if let Ok(fres) = exec::run(db, &fsql) {
+                if let Ok(fres) = exec::run_cached(0xC02, db, &fsql) {
                     let mut got: Vec<i64> = fres.rows.iter().filter_map(|r| if let Val::Int(i) = &r[0] { Some(*i) } else { None }).collect();
                     got.sort();
                     let mut want: Vec<i64> = vec![];
@@ -732,13 +732,13 @@ pub fn run(ctx: &Ctx) -> i32 {
     ctx.enumerate("triples", tr, |c| check(c, &ctx.known, &db));
     ctx.tape_search(
         "random-trees",
-        ctx.n(12_000, 400_000),
+        ctx.n(30_000, 800_000),
         200,
         gen_case,
         |c| check(c, &ctx.known, &db),
     );
-    ctx.tape_search("random-trees/shared-operand", ctx.n(6_000, 150_000), 200, gen_case_shared, |c| check(c, &ctx.known, &db));
-    ctx.tape_search("random-trees/other-dialects-on-sqlite", ctx.n(12_000, 300_000), 200, gen_case_other_dialect, |c| check(c, &ctx.known, &db));
+    ctx.tape_search("random-trees/shared-operand", ctx.n(15_000, 300_000), 200, gen_case_shared, |c| check(c, &ctx.known, &db));
+    ctx.tape_search("random-trees/other-dialects-on-sqlite", ctx.n(30_000, 600_000), 200, gen_case_other_dialect, |c| check(c, &ctx.known, &db));
     ctx.finish(
         "(1) every type-correct (parent operator, child operator, left|right) combination of the 16 executable binary operators over column/literal leaves, plus each under a unary operator and inside a larger context, printed with the parentheses the documented precedence table requires and no others; (2) random typed trees to depth 5 over columns, literals and null with all binary and unary operators, case, in-range and ??. Each tree is evaluated by SQLite on the 675-row cross product of the value domain (NULL, -2, 0, 1, 3; 0.5, -1.5; true/false; 'a','b') and compared per row with the reference evaluation of the intended tree. non-trivial = depth >= 2, some non-NULL result, >= 2 distinct results; distinct = (source, target)",
         &[
